@@ -89,6 +89,8 @@ type Discipline[Type any] struct {
 	interrupter *time.Ticker
 
 	err chan error
+
+	verif verifState
 }
 
 func (opts Opts[Type]) isValid() error {
@@ -154,6 +156,8 @@ func New[Type any](opts Opts[Type]) (*Discipline[Type], error) {
 	}
 
 	dsc.updateInputs(opts.Inputs)
+
+	dsc.verifBind()
 
 	go dsc.main()
 
@@ -248,15 +252,20 @@ func (dsc *Discipline[Type]) removeInput(priority uint) {
 }
 
 func (dsc *Discipline[Type]) main() {
+	defer dsc.verifAt("Exit", 0, false)
 	defer dsc.breaker.Complete()
 	defer dsc.graceful.Complete()
 	defer close(dsc.err)
 	defer close(dsc.inputAdds)
 	defer close(dsc.inputRmvs)
 	defer dsc.interrupter.Stop()
+	defer dsc.verifAt("Closing", 0, false)
+
+	dsc.verifAt("Start", 0, false)
 
 	if err := dsc.loop(); err != nil {
 		dsc.err <- err
+		dsc.verifAt("Err", 0, true)
 	}
 }
 
@@ -266,29 +275,39 @@ func (dsc *Discipline[Type]) loop() error {
 	for {
 		select {
 		case <-dsc.breaker.IsBreaked():
+			dsc.verifAt("TopStop", 0, false)
 			return nil
 		case <-dsc.opts.Ctx.Done():
+			dsc.verifAt("TopCtx", 0, false)
 			return nil
 		case add := <-dsc.inputAdds:
 			dsc.addInput(add.channel, add.priority)
+			dsc.verifAt("TopAdd", add.priority, false)
 		case priority := <-dsc.inputRmvs:
 			dsc.removeInput(priority)
+			dsc.verifAt("TopRemove", priority, false)
 		case priority := <-dsc.opts.Feedback:
 			dsc.decreaseActual(priority)
+			dsc.verifAt("TopFb", priority, false)
 		default:
+			dsc.verifAt("TopDefault", 0, false)
 		}
 
 		dsc.clearActual()
 
 		processed, err := dsc.base()
 		if err != nil {
+			dsc.verifAt("Bad", 0, true)
 			return err
 		}
+
+		dsc.verifAt("RoundEnd", 0, processed != 0)
 
 		if processed == 0 {
 			select {
 			case <-dsc.graceful.IsBreaked():
 				if dsc.isDrainedInputs() {
+					dsc.verifAt("Graceful", 0, true)
 					return nil
 				}
 			default:
@@ -298,6 +317,7 @@ func (dsc *Discipline[Type]) loop() error {
 		}
 
 		dsc.getLimitedFeedback()
+		dsc.verifAt("LimDone", 0, false)
 	}
 }
 
@@ -305,11 +325,14 @@ func (dsc *Discipline[Type]) waitZeroActual() {
 	for !dsc.isZeroActual() {
 		select {
 		case <-dsc.breaker.IsBreaked():
+			dsc.verifAt("FinalStop", 0, false)
 			return
 		case <-dsc.opts.Ctx.Done():
+			dsc.verifAt("FinalCtx", 0, false)
 			return
 		case priority := <-dsc.opts.Feedback:
 			dsc.decreaseActual(priority)
+			dsc.verifAt("FbFinal", priority, false)
 		}
 	}
 }
@@ -317,11 +340,14 @@ func (dsc *Discipline[Type]) waitZeroActual() {
 func (dsc *Discipline[Type]) getOneFeedback() {
 	select {
 	case <-dsc.breaker.IsBreaked():
+		dsc.verifAt("OneStop", 0, false)
 		return
 	case <-dsc.opts.Ctx.Done():
+		dsc.verifAt("OneCtx", 0, false)
 		return
 	case priority := <-dsc.opts.Feedback:
 		dsc.decreaseActual(priority)
+		dsc.verifAt("FbOne", priority, false)
 	}
 }
 
@@ -329,11 +355,14 @@ func (dsc *Discipline[Type]) getLimitedFeedback() {
 	for range dsc.feedbackLimit {
 		select {
 		case <-dsc.breaker.IsBreaked():
+			dsc.verifAt("LimStop", 0, false)
 			return
 		case <-dsc.opts.Ctx.Done():
+			dsc.verifAt("LimCtx", 0, false)
 			return
 		case priority := <-dsc.opts.Feedback:
 			dsc.decreaseActual(priority)
+			dsc.verifAt("FbLim", priority, false)
 		default:
 			return
 		}
@@ -387,6 +416,8 @@ func (dsc *Discipline[Type]) base() (uint, error) {
 		return processed, err
 	}
 
+	dsc.verifAt("Recalc", 0, proceed)
+
 	if !proceed {
 		return processed, nil
 	}
@@ -402,6 +433,8 @@ func (dsc *Discipline[Type]) waitCalcTactic() error {
 		if err != nil {
 			return err
 		}
+
+		dsc.verifAt("Calc", 0, proceed)
 
 		if proceed {
 			return nil
@@ -435,17 +468,21 @@ func (dsc *Discipline[Type]) io(priority uint) uint {
 	for dsc.tactic[priority] != 0 {
 		select {
 		case <-dsc.breaker.IsBreaked():
+			dsc.verifAt("PollStop", priority, false)
 			return processed
 		case <-dsc.opts.Ctx.Done():
+			dsc.verifAt("PollCtx", priority, false)
 			return processed
 		case item, opened := <-dsc.inputs[priority].Channel:
 			if !opened {
 				dsc.markInputAsDrained(priority)
+				dsc.verifAt("Drained", priority, false)
 				return processed
 			}
 
 			processed += dsc.send(item, priority)
 		default:
+			dsc.verifAt("PollEmpty", priority, false)
 			return processed
 		}
 	}
@@ -461,12 +498,15 @@ func (dsc *Discipline[Type]) iou(priority uint) uint {
 	for dsc.tactic[priority] != 0 {
 		select {
 		case <-dsc.breaker.IsBreaked():
+			dsc.verifAt("PollStop", priority, false)
 			return processed
 		case <-dsc.opts.Ctx.Done():
+			dsc.verifAt("PollCtx", priority, false)
 			return processed
 		case item, opened := <-dsc.inputs[priority].Channel:
 			if !opened {
 				dsc.markInputAsDrained(priority)
+				dsc.verifAt("Drained", priority, false)
 				return processed
 			}
 
@@ -474,6 +514,8 @@ func (dsc *Discipline[Type]) iou(priority uint) uint {
 
 			processed += dsc.send(item, priority)
 		case <-dsc.interrupter.C:
+			dsc.verifAt("PollTick", priority, interrupt)
+
 			if interrupt {
 				return processed
 			}
@@ -499,14 +541,19 @@ func (dsc *Discipline[Type]) send(item Type, priority uint) uint {
 		Item:     item,
 	}
 
+	dsc.verifAt("SendStart", priority, false)
+
 	select {
 	case <-dsc.breaker.IsBreaked():
+		dsc.verifAt("SendStop", priority, false)
 		return 0
 	case <-dsc.opts.Ctx.Done():
+		dsc.verifAt("SendCtx", priority, false)
 		return 0
 	case dsc.opts.Output <- prioritized:
 		dsc.decreaseTactic(priority)
 		dsc.increaseActual(priority)
+		dsc.verifAt("Send", priority, false)
 	}
 
 	return 1
